@@ -45,7 +45,7 @@ def resolve_nfft(kind, N):
 def cases(c):
     rng = c.rng('cases')
     out = []
-    n = 26 if c.tier == 'quick' else 900
+    n = 260 if c.tier == 'quick' else 1500
     for cls in E.CLASSES:
         for i in range(n):
             cplx = int(i % 2 == 0)
